@@ -47,11 +47,19 @@ class MeshLine1(MeshSimplex, Mesh):
         newt[1, ::2] = newt[0, 1::2]
         newt[1, 1::2] = t[1]
 
+        subdomains = None
+        if self._subdomains is not None:
+            # children of element k are the elements 2 * k and 2 * k + 1
+            subdomains = {
+                name: np.sort(np.concatenate((2 * ixs, 2 * ixs + 1)))
+                for name, ixs in self._subdomains.items()
+            }
+
         return replace(
             self,
             doflocs=newp,
             t=newt,
-            _subdomains=None,
+            _subdomains=subdomains,
         )
 
     def _adaptive(self, marked):
